@@ -7,6 +7,7 @@ use super::visitor::{Visitor, VisitorMut};
 use crate::compiler::Compiler;
 use crate::filter::{CompiledExpr, CompiledOneExpr, CompiledVecExpr};
 use crate::lex::{Lex, LexErrorKind, LexResult, LexWith, expect, skip_space, span};
+use crate::scheme::Identifier;
 use crate::types::{GetType, LhsValue, Type, TypeMismatchError};
 use serde::Serialize;
 
@@ -246,6 +247,24 @@ impl LogicalExpr {
         })())
     }
 
+    /// Lexes a unary operator. The word `not` directly followed by identifier
+    /// characters is the operator only when those characters do not complete
+    /// the name of a registered field or function: `notes` is the field
+    /// `notes`, never `not es`.
+    pub(crate) fn lex_unary_op<'i>(
+        input: &'i str,
+        parser: &FilterParser<'_>,
+    ) -> Option<(UnaryOp, &'i str)> {
+        let (op, rest) = UnaryOp::lex(input).ok()?;
+        let glued = !input.starts_with('!')
+            && rest.starts_with(|c: char| c.is_ascii_alphanumeric() || c == '_' || c == '.');
+        if glued && Identifier::lex_with(input, parser.scheme).is_ok() {
+            None
+        } else {
+            Some((op, rest))
+        }
+    }
+
     fn lex_simple_expr<'i>(input: &'i str, parser: &FilterParser<'_>) -> LexResult<'i, Self> {
         Ok(if let Ok(rest) = expect(input, "(") {
             let nested_parser = parser.with_increased_nesting(input)?;
@@ -257,7 +276,7 @@ impl LogicalExpr {
                 LogicalExpr::Parenthesized(Box::new(ParenthesizedExpr { expr })),
                 input,
             )
-        } else if let Ok((op, rest)) = UnaryOp::lex(input) {
+        } else if let Some((op, rest)) = Self::lex_unary_op(input, parser) {
             let nested_parser = parser.with_increased_nesting(input)?;
             let input = skip_space(rest);
             let (arg, input) = Self::lex_simple_expr(input, &nested_parser)?;
